@@ -16,12 +16,13 @@ pub struct DropExecutor<S: Storage> {
 impl<S: Storage> DropExecutor<S> {
     #[try_stream(boxed, ok = DataChunk, error = ExecutorError)]
     pub async fn execute(self) {
-        for table in self.tables {
-            if self.catalog.get_table(&table).unwrap().is_view() {
-                self.catalog.drop_table(table);
-            } else {
-                self.storage.drop_table(table).await?;
-            }
+        // the tables of one statement are dropped in one storage operation, so that a failure
+        // or a crash cannot leave the statement half applied
+        let (views, tables): (Vec<_>, Vec<_>) = (self.tables.into_iter())
+            .partition(|table| self.catalog.get_table(table).unwrap().is_view());
+        self.storage.drop_tables(&tables).await?;
+        for view in views {
+            self.catalog.drop_table(view);
         }
         yield DataChunk::single(1);
     }
